@@ -3,6 +3,7 @@ import GoImap.Spec.Framing
 import GoImap.Lemmas.FramingReply
 import GoImap.Lemmas.FramingBridge
 import GoImap.Lemmas.FramingLine
+import GoImap.Lemmas.FramingQuoted
 /-
   C04 — server command framing: literal payloads are never parsed as commands.
   Statements about Model/Framing.lean (the mirror of the repaired server) for every configuration,
@@ -38,19 +39,20 @@ import GoImap.Lemmas.FramingLine
                                    (i) the argument-less commands of the table: NOOP CHECK CAPABILITY LOGOUT
                                        STARTTLS(refused) UNAUTHENTICATE NAMESPACE CLOSE UNSELECT EXPUNGE,
                                        with ANY line tail (junk, literal headers of either kind, quoted text),
-                                   (ii-a) LOGIN SELECT EXAMINE DELETE SUBSCRIBE UNSUBSCRIBE RENAME on a line that
-                                       contains neither DQUOTE nor "{" — every argument is an atom; wrong
-                                       argument counts, junk after the arguments and "}" / "(" / "%" inside
-                                       them included,
+                                   (ii) LOGIN SELECT EXAMINE DELETE SUBSCRIBE UNSUBSCRIBE RENAME on a line whose
+                                       quoted strings end on the line (as `strictLine` demands) and that
+                                       contains no "{" — every argument is an atom or a quoted string
+                                       (escapes included); wrong argument counts, junk after the arguments
+                                       and "}" / "(" / "%" inside them included,
                                  on a strict line (printable US-ASCII, not ending in SP), with no continuation
                                  request pending at the end of the line. The server writes exactly one tagged
                                  reply and its tag is `frame`'s tag; every octet it consumes as command text
                                  has role `text` in `frame` (server roles ⊑ spec roles); unless the line ends in
                                  a non-synchronising literal header both end the command at the same octet
                                  (same unread input, same offset); no "+" is written.
-                                 Not covered: quoted-string arguments (class (ii-b): the quote phase of the
-                                 consumed prefix is not tracked), CREATE / ENABLE / SEARCH / APPEND, literals
-                                 (class (iii)), AUTHENTICATE, IDLE, and the induction over a stream.
+                                 Not covered: CREATE / ENABLE / SEARCH / APPEND, any line with "{" in an
+                                 argument-taking command (literals, class (iii)), AUTHENTICATE, IDLE, and
+                                 the induction over a stream.
   The full statements, NOT proved:
       tags_agree            : for every cfg and every inp in the strict domain,
                               tags (serve cfg inp) is a prefix of tags (frame go inp), equal when the server
@@ -58,7 +60,8 @@ import GoImap.Lemmas.FramingLine
       no_payload_as_command : rolesOf cfg inp is a prefix of (frame go inp).flatMap (·.roles)
   What is missing for them, precisely: (1) the `Shape` lemma (Lemmas/FramingLine.lean: the handler stays
   on the line; `command_line_generic` / `line_command_frame` then give the rest) for the handlers that
-  read quoted strings, lists or literals (for atoms: `At` / `StepAt` / `*_shapeFrom` there) — the primitives of Lemmas/FramingLine.lean (`OnLine`: look, accept, func, expectAtom, SP,
+  read lists or literals (for atoms and quoted strings: `AtQ` / `StepQ` / `*_shapeQ` in
+  Lemmas/FramingQuoted.lean) — the primitives of Lemmas/FramingLine.lean (`OnLine`: look, accept, func, expectAtom, SP,
   the command header) already stay on the line, `crlfP_at_eol` / `crlfP_mid` / `discardLine_line` settle the
   line end, `literal_header_agrees` the literal; what is not done is carrying the invariant through every
   handler (it is not closed under blind composition: a handler must not read after its ExpectCRLF, and
@@ -161,14 +164,16 @@ theorem open_literal_blocks_text (s : S) (h : s.lit.isSome = true) :
   Framing.open_literal_blocks_text s h
 
 /-- the classes of commands for which the end-to-end simulation is proved: (0) a command name
-    outside the server's table, (i) the argument-less commands of the table, (ii-a) LOGIN, SELECT,
-    EXAMINE, DELETE, SUBSCRIBE, UNSUBSCRIBE, RENAME on a line `l` without DQUOTE and without "{"
-    (every argument an atom; too few, too many or malformed arguments included) -/
+    outside the server's table, (i) the argument-less commands of the table, (ii) LOGIN, SELECT,
+    EXAMINE, DELETE, SUBSCRIBE, UNSUBSCRIBE, RENAME on a line `l` whose quoted strings end on the
+    line (the `quotePhase` conjunct of `strictLine`) and that has no "{": every argument an atom or a
+    quoted string; too few, too many or malformed arguments included -/
 def Covered (cfg : Cfg) (name l : List Nat) : Prop :=
   handlerOf cfg name = .unknown ∨
   name ∈ [k_NOOP, k_CHECK, k_CAPABILITY, k_LOGOUT, k_STARTTLS, k_UNAUTHENTICATE, k_NAMESPACE, k_CLOSE,
     k_UNSELECT, k_EXPUNGE] ∨
-  (name ∈ [k_LOGIN, k_SELECT, k_EXAMINE, k_DELETE, k_SUBSCRIBE, k_UNSUBSCRIBE, k_RENAME] ∧ 34 ∉ l ∧ 123 ∉ l)
+  (name ∈ [k_LOGIN, k_SELECT, k_EXAMINE, k_DELETE, k_SUBSCRIBE, k_UNSUBSCRIBE, k_RENAME] ∧
+    FramingSpec.quotePhase false l = false ∧ 123 ∉ l)
 
 theorem covered_frame (cfg : Cfg) (hfix : cfg.fx.append = true) (s0 : S) (l rest : List Nat)
     (hi : s0.inp = l ++ 13 :: 10 :: rest) (hp : ∀ b ∈ l, 32 ≤ b ∧ b ≤ 126) (hsp : l.getLast? ≠ some 32)
@@ -188,7 +193,7 @@ theorem covered_frame (cfg : Cfg) (hfix : cfg.fx.append = true) (s0 : S) (l rest
   · obtain ⟨s1, new, h⟩ := unknown_command_frame cfg hfix s0 l rest hi hp tag name s2 hh hu go hgo fuel f0
     exact ⟨s1, new, .bad, h⟩
   · exact noarg_command_frame cfg hfix s0 l rest hi hp hsp tag name s2 hh (noArg_names cfg name hn) go hgo fuel f0
-  · exact atom_command_frame cfg hfix s0 l rest hi hp hsp hq hb tag name s2 hh (atom_names cfg name hn)
+  · exact quoted_command_frame cfg hfix s0 l rest hi hp hsp hq hb tag name s2 hh (quoted_names cfg name hn)
       go hgo fuel f0
 
 /-- tags_agree for the covered classes (see the header for the full statement): on the strict line
